@@ -21,6 +21,7 @@ Theorem callgraph_checks :
   graph_ok cg_nnodes fw fh fscc fguard fHmax fWg fM fB cg_edges = true /\
   forallb (fun b => b <=? cg_Bmax) cg_B = true /\ (cg_Bmax <? 8 * 1024 * 1024) = true.
 Proof. vm_compute. repeat split; reflexivity. Qed.
+Print Assumptions callgraph_checks.
 
 (* Every call path of the library that stays outside the unguarded recursive functions, and on
    which each guarded function has at most kMax+1 live frames (what its depth test enforces), uses
